@@ -1127,7 +1127,13 @@ class HfProtocol(utils.EventEmitter):
             if not self._slc_initialized:
                 await self.initiate_slc()
             while True:
-                await self.handle_unsolicited()
+                try:
+                    await self.handle_unsolicited()
+                except HfProtocol.HfLoopTermination:
+                    raise
+                except Exception:
+                    # One bad unsolicited result code must not end the loop
+                    logger.exception('error while handling an unsolicited result code')
         except HfProtocol.HfLoopTermination:
             logger.info('Loop terminated')
         except Exception:
